@@ -5,7 +5,7 @@ import warnings
 import eng
 import gen
 from engcorr import RANK, c01_monitor, c02_monitor, c14_monitor, engine_check, split_ops
-from framework import known_findings, lean_obligations
+from framework import known_findings, lean_obligations, safe_probe
 
 BASE = dict(
     max_states=5, extra_trans=(1, 7), p_multi_event=0.35, p_internal=0.15,
@@ -315,7 +315,7 @@ def probe_loop_continuity(seed, cases=12):
 
 def run(ctx):
     lean_obligations(ctx)
-    lc = probe_loop_continuity(ctx.seed, 12 if ctx.tier == "quick" else 120)
+    lc = safe_probe(probe_loop_continuity, ctx.seed, 12 if ctx.tier == "quick" else 120)
     ctx.coverage["loop_continuity_cases"] = 12 if ctx.tier == "quick" else 120
     if lc:
         ctx.violation(ctx.write_replay("loop_continuity.txt", "\n".join(lc[:10]) + "\n"), lc[0][:200])
